@@ -184,6 +184,18 @@ fn run<T: U>(c: &UrlCase) -> Exec {
             if (o == std::cmp::Ordering::Equal) != e {
                 oracle.push(("C18:ord-eq-inconsistent".into(), String::new()));
             }
+            // a copy is the value it was copied from, in every view — made fresh or over an existing value (Clone::clone_from
+            // is what Vec::clone_from / Option::clone_from call element-wise)
+            let mut z = x.clone();
+            let fresh_ok = z == *x && z.text() == x.text() && z.parsed() == x.parsed();
+            z.clone_from(y);
+            let over_ok = z == *y && z.text() == y.text() && z.parsed() == y.parsed() && z.to_string() == c.b && h(&z) == h(y);
+            let mut zs = vec![y.clone(), x.clone()];
+            zs.clone_from(&vec![x.clone(), y.clone()]);
+            let vec_ok = zs[0].text() == x.text() && zs[1].text() == y.text() && zs[0].parsed() == x.parsed() && zs[1].parsed() == y.parsed();
+            if !fresh_ok || !over_ok || !vec_ok {
+                oracle.push(("C18:clone-differs".into(), format!("clone of {:?}{}: text {:?}, url() {:?}", c.b, if fresh_ok { " written over an existing value with clone_from" } else { "" }, z.text(), z.parsed().as_str())));
+            }
             let he = h(x) == h(y);
             if e && !he {
                 oracle.push(("C18:hash-inconsistent".into(), format!("{:?}", c.a)));
